@@ -39,6 +39,7 @@ func runC17(o opts) error {
 			for k := 1; k <= n; k++ {
 				scns = append(scns, c17.Exhaustive(wd, k)...)
 			}
+			scns = append(scns, c17.Prefixed(wd, n/2)...)
 			for i := 0; i < nrand; i++ {
 				scns = append(scns, c17.Random(rng, wd, rlen/2+rng.Intn(rlen)))
 			}
